@@ -55,6 +55,12 @@ def _axis_spec(rng: random.Random, ax: int, big: bool):
         pairs = np.asarray(b.bins, dtype=float).tolist()
         return "fixed_width", pairs, False, kind, {"bin_width": w, "range": (lo, lo + nb * w)}
     if kind in ("edges", "obj_open", "obj_closed", "gapped"):
+        if kind == "gapped" and rng.random() < 0.3:
+            # gaps far below the edge magnitude are still gaps (exact comparison): rows inside them are missed
+            pairs = gen.tiny_gapped_pairs(rng, max(2, nb))
+            arr = np.array(pairs)
+            closed = rng.random() < 0.5
+            return (arr if closed and rng.random() < 0.5 else binnings.StaticBinning(arr, includes_right_edge=closed)), pairs, closed, kind, {}
         if kind == "gapped":
             pairs = gen.gapped_pairs(rng, max(2, nb))
         else:
